@@ -133,13 +133,13 @@ def install_logging():
     o_e, o_u = _extract.elaborate_context, _extract.unwrap_context
 
     def e(mgr, context):
-        if isinstance(mgr, Hold):
+        if isinstance(mgr, (Hold, FailsToElaborate)):
             return o_e(mgr, context)          # the generators' own managers are not part of the modelled chain
         LOG.append(["E", WORLD.ident(mgr), context.inner_stack is not None, bool(context.children)])
         return o_e(mgr, context)
 
     def u(mgr, context):
-        if isinstance(mgr, Hold):
+        if isinstance(mgr, (Hold, FailsToElaborate)):
             return o_u(mgr, context)
         LOG.append(["U", WORLD.ident(mgr), context.inner_stack is not None, bool(context.children)])
         return o_u(mgr, context)
@@ -184,6 +184,10 @@ def run_fill(case, inside):
                 res["outer_error"] = repr(st.error)
         else:
             go()
+    return finish(res, ctx)
+
+
+def finish(res, ctx):
     # normalise the log: a U entry followed by a UG entry (the glue calling the registered hook) merges into the UG label
     calls = []
     snaps = []
@@ -224,6 +228,66 @@ def run_fill(case, inside):
     return res
 
 
+class FailsToElaborate:
+    """a healthy manager whose elaboration raises: the FIRST context of the frame in 'frame' mode"""
+
+    def __bool__(self):
+        return False
+
+    def __enter__(self):
+        return self
+
+    def __exit__(self, *a):
+        return False
+
+
+class ElabFailure(Exception):
+    pass
+
+
+@stackscope.elaborate_context.register(FailsToElaborate)
+def _elab_fails(mgr, context):
+    raise ElabFailure("the first context of the frame cannot be elaborated")
+
+
+def run_in_frame(case):
+    """the same chain, but reached the ordinary way: the manager is the SECOND context of a real frame whose first
+    context's elaboration fails -- every context of a frame is filled in on its own"""
+    TABLE["case"] = case
+    del LOG[:]
+    mgr = WORLD.obj(case, case["start"])
+
+    def holder():
+        with FailsToElaborate(), mgr:
+            yield 1
+    g = holder()
+    next(g)
+    res = {}
+    try:
+        with warnings.catch_warnings():
+            warnings.simplefilter("ignore")
+            st = stackscope.extract(g, with_contexts=True)
+        errs = []
+        if st.error is not None:
+            errs = list(st.error.exceptions) if hasattr(st.error, "exceptions") else [st.error]
+        if not any(isinstance(e, ElabFailure) for e in errs):
+            res["outer_error"] = "the first context's failure is not in Stack.error (%r)" % (st.error,)
+        others = [e for e in errs if not isinstance(e, ElabFailure)]
+        guard = [e for e in others if "unwrapped more than 100 times" in str(e)]
+        res["err"] = True if guard else False
+        if [e for e in others if e not in guard]:
+            res["outer_error"] = "unexpected errors %r" % (others,)
+        ctxs = st.frames[0].contexts
+        if len(ctxs) != 2:
+            res["outer_error"] = "the frame has %d contexts" % len(ctxs)
+            ctx = Context(obj=None, is_async=False)
+        else:
+            ctx = ctxs[1]
+        return finish(res, ctx)
+    finally:
+        g.close()
+
+
 def compare(exp, got):
     bad = []
     for k in ("obj", "inner", "children", "hide", "desc"):
@@ -252,6 +316,14 @@ def main():
             results.append(got)
             if bad:
                 out["mismatches"].append({"tid": case["tid"], "inside": inside, "bad": bad, "case": {k: case[k] for k in ("kind", "E", "Eobj", "U", "Unext", "start", "exiting")}})
+            WORLD.cleanup()
+            out["n"] += 1
+        if not case["exiting"] and case["kind"][case["start"] - 1] == "plain":
+            got = run_in_frame(case)
+            bad = compare(case["expect"], got)
+            if bad:
+                out["mismatches"].append({"tid": case["tid"], "inside": "as the second context of a frame whose first context fails to elaborate", "bad": bad,
+                                          "case": {k: case[k] for k in ("kind", "E", "Eobj", "U", "Unext", "start", "exiting")}})
             WORLD.cleanup()
             out["n"] += 1
         a, b = results
